@@ -5,11 +5,23 @@ while the task's current scope is effectively cancelled (or was within the deliv
 at every scope exit carrying a cancellation: absorbed iff the scope itself is cancelled and
 no cancelled enclosing scope is visible, cancelled_caught == absorbed, other exceptions pass
 unchanged (also inside exception groups).
+
+Second engine (``foreign_cases``): the absorb decision as a function of WHAT arrives at the
+exit.  Scope situation (6) x exception shape: every non-empty combination of {the scope's own
+AnyIO cancellation, a native asyncio.CancelledError, two ordinary errors} raised bare, as an
+exception group, or as a nested group.  Oracle: the non-AnyIO leaves that come out are, by
+identity, the ones that went in; AnyIO cancellation leaves vanish iff the scope absorbs
+(cancelled, no cancelled parent visible); cancelled_caught == (absorbs and one was there).
 """
 
 from __future__ import annotations
 
+import asyncio
+import itertools
+
 from .. import treecheck, treefam
+from ..collect import sig_of
+from ..loops import run
 
 PROPERTY = "C04"
 LEVEL = "exploration"
@@ -30,8 +42,144 @@ ASSUMPTIONS = [
 SHARD_TIMEOUT = {"quick": 300, "thorough": 1500}
 
 
+class Boom(Exception):
+    pass
+
+
+SITUATIONS = ["uncancelled", "cancelled", "cancelled+shield", "cancelled-in-cancelled-parent",
+              "cancelled+shield-in-cancelled-parent", "uncancelled-in-cancelled-parent"]  # fmt: skip
+PARTS = ["own", "native", "boom", "boom2"]
+
+
+def foreign_cases():  # noqa: ANN201
+    for cfg in ("stock", "eager"):
+        for sit in SITUATIONS:
+            for r in range(1, len(PARTS) + 1):
+                for parts in itertools.combinations(PARTS, r):
+                    shapes = ["group", "nested"] if len(parts) > 1 else ["bare", "group", "nested"]
+                    for shape in shapes:
+                        yield {"t": "foreign", "cfg": cfg, "situation": sit, "parts": list(parts),
+                               "shape": shape}  # fmt: skip
+
+
+def _leaves(e) -> list:  # noqa: ANN001
+    if e is None:
+        return []
+
+    if isinstance(e, BaseExceptionGroup):
+        return [x for sub in e.exceptions for x in _leaves(sub)]
+
+    return [e]
+
+
+def judge_foreign(case: dict, col) -> None:  # noqa: ANN001
+    from anyio import CancelScope
+    from anyio.lowlevel import checkpoint
+
+    sit, parts, shape = case["situation"], case["parts"], case["shape"]
+    res: dict = {}
+
+    async def main() -> None:
+        parent_cancelled = "cancelled-parent" in sit
+        cancelled = sit.startswith("cancelled")
+        shield = "+shield" in sit
+        effectively = cancelled or (parent_cancelled and not shield)
+        if "own" in parts and not effectively:
+            res["skip"] = True
+            return
+
+        objs = {"native": asyncio.CancelledError("native cancellation with a message"),
+                "boom": Boom(1), "boom2": Boom(2)}  # fmt: skip
+        out = None
+        with CancelScope() as parent:
+            if parent_cancelled:
+                parent.cancel()
+
+            try:
+                with CancelScope(shield=shield) as sc:
+                    if cancelled:
+                        sc.cancel()
+
+                    own = None
+                    if "own" in parts:
+                        try:
+                            await checkpoint()
+                        except asyncio.CancelledError as c:
+                            own = c
+
+                        if own is None:
+                            res["no_delivery"] = True
+                            return
+
+                        objs["own"] = own
+
+                    # (built and raised outside any except block: no __context__ chain
+                    # that would make a native cancellation look like an AnyIO one)
+                    items = [objs[p] for p in parts]
+                    if shape == "bare":
+                        exc = items[0]
+                    elif shape == "group":
+                        exc = BaseExceptionGroup("g", items)
+                    else:
+                        exc = BaseExceptionGroup("outer", [BaseExceptionGroup("inner", items[:1])]
+                                                 + items[1:])  # fmt: skip
+
+                    res["in"] = items
+                    raise exc
+            except BaseException as e:  # noqa: BLE001
+                out = e
+
+            res["out"] = out
+            res["caught"] = sc.cancelled_caught
+            res["absorbs"] = cancelled and not (parent_cancelled and not shield)
+            # leave the (possibly cancelled) parent without a further checkpoint
+
+    viol: list = []
+    try:
+        run(main, config=case["cfg"])
+    except BaseException as e:  # noqa: BLE001
+        viol.append(("exception-escaped-session", {"exc": repr(e)}))
+
+    if res.get("skip"):
+        col.count("foreign_cases_skipped_inapplicable")
+        return
+
+    if res.get("no_delivery"):
+        viol.append(("no-cancellation-delivered-in-effectively-cancelled-scope", {}))
+    elif "in" in res:
+        items, out = res["in"], res["out"]
+        own = [x for x, p in zip(items, parts) if p == "own"]
+        others = [x for x, p in zip(items, parts) if p != "own"]
+        got = _leaves(out)
+        want = others + ([] if res["absorbs"] else own)
+        if sorted(map(id, got)) != sorted(map(id, want)):
+            viol.append(("exit-changed-what-passes-through",
+                         {"in": [repr(x) for x in items], "out": repr(out),
+                          "absorbs": res["absorbs"],
+                          "swallowed": [repr(x) for x in want if id(x) not in set(map(id, got))],
+                          "invented": [repr(x) for x in got if id(x) not in set(map(id, want))]}))  # fmt: skip
+
+        if res["caught"] != (res["absorbs"] and bool(own)):
+            viol.append(("cancelled_caught-wrong", {"cancelled_caught": res["caught"],
+                                                    "absorbs": res["absorbs"], "own_present": bool(own)}))  # fmt: skip
+
+    col.case(sig_of(case), True, sample={"case": case, "out": repr(res.get("out"))[:200]})
+    col.count("foreign_exception_cases")
+    col.count("window:foreign_exception_through_scope_exit")
+    for clause, detail in viol:
+        col.violation(clause, detail, case)
+
+
 def all_cases(tier: str, seed: int):  # noqa: ANN201
+    yield from foreign_cases()
     yield from treecheck.cases("c04", tier, seed, 4000, 60000, extra=treefam.scope_chains)
+
+
+def judge(case: dict, col) -> None:  # noqa: ANN001
+    if case.get("t") == "foreign":
+        judge_foreign(case, col)
+    else:
+        treecheck.judge(PROPERTY, case, col)
 
 
 def shards(tier: str, seed: int) -> list[dict]:
@@ -41,14 +189,15 @@ def shards(tier: str, seed: int) -> list[dict]:
 def run_shard(desc: dict, col) -> None:  # noqa: ANN001
     for i, case in enumerate(all_cases(desc["tier"], desc["seed"])):
         if i % desc["of"] == desc["shard"]:
-            treecheck.judge(PROPERTY, case, col)
+            judge(case, col)
 
 
 def replay(case: dict, col) -> None:  # noqa: ANN001
-    treecheck.judge(PROPERTY, case, col)
+    judge(case, col)
 
 
 def finish(col, tier: str) -> None:  # noqa: ANN001
-    for k in ['window:scope_exit_with_cancellation', 'window:cancel_while_behind_shield', 'window:shield_toggled_while_active']:
+    for k in ['window:scope_exit_with_cancellation', 'window:cancel_while_behind_shield', 'window:shield_toggled_while_active',
+              'window:foreign_exception_through_scope_exit']:
         if not col.counters.get(k):
             col.inconclusive_because(f"deciding window never reached: {k}")
